@@ -189,11 +189,32 @@ def run_grouping(c, table, cases, prelude=(), name="G-cst"):
     return nbad
 
 
+def adjacent_cases(c, nrand, mixed=False):
+    """Grouping cases over operators registered at precedences adjacent to built-in ones: (table, prelude, cases)."""
+    table, pre = G.adjacent_table(G.documented_table(), mixed)
+    ops = [o for o, _, _ in G.ADJACENT_OPS + (G.MIXED_OPS if mixed else [])] + G.ADJACENT_NEIGHBOURS
+    rd_min = G.Renderer(table, None, "min", infix_not=True)
+    cases = [(G.join_tokens(rd_min.program(t)), t) for t in G.all_small_asts(table, ops)]
+    sub = ops if not c.quick() else [o for o, _, _ in G.ADJACENT_OPS[:7]] + ["+", "*", "=", "||"]
+    cases += [(G.join_tokens(rd_min.program(t)), t) for t in G.all_three_op_asts(sub)]
+    sub_t = table.copy()
+    sub_t.infix = {o: table.infix[o] for o in ops}
+    ag = G.AstGen(c.rng.fork(), sub_t, max_depth=4)
+    for i in range(nrand):
+        t = ag.program()
+        rd = G.Renderer(table, c.rng.fork(), ["min", "extra", "full"][i % 3])
+        cases.append((G.join_tokens(rd.program(t), c.rng, tight=False), t))
+    return table, pre, cases
+
+
 def check_C02(c):
     c.prove(["EE.Props.C02"])
     table = G.documented_table()
     cases = grouping_cases(c, table, 15000 if c.quick() else 300000)
     run_grouping(c, table, cases)
+    # operators registered one precedence step away from built-in ones, both associativities
+    atable, pre, acases = adjacent_cases(c, 4000 if c.quick() else 80000)
+    run_grouping(c, atable, acases, prelude=pre, name="G-cst with operators registered at adjacent precedences")
     c.extra["operators_in_documented_table"] = len(table.infix)
     return c.finish(trusted=TB_COMMON, rule="every tree with ≤ 2 infix operators over all operator pairs × negation (exhaustive) + prefix/postfix/conditional placements per operator + random trees rendered with minimal/extra/full parentheses by the documented rule; expected AST known to the generator")
 
@@ -329,6 +350,12 @@ def check_C12(c):
                              "reparsed": f[3] if len(f) > 3 else None, "expr_of_reparsed": unhx(f[4]) if len(f) > 4 and f[4] != "-" else None})
         return n_ok
     n_ok = oracle(reqs, impl)
+    # operators registered one precedence step away from built-in ones (binding powers of neighbours must not collide)
+    atable, pre, acases = adjacent_cases(c, 4000 if c.quick() else 80000, mixed=True)
+    reqsA = pre + [expr_req(s_) for s_, _ in acases]
+    implA, modelA = both(reqsA, timeout=900)
+    c.add_stream(Stream("EXPR with operators registered at adjacent precedences", reqsA, implA, modelA, numeric=False))
+    n_ok += oracle(reqsA[len(pre):], implA[len(pre):])
     # source texts built around string literals: both quote characters, backslashes (the language has no escapes: a
     # backslash is an ordinary character), blanks, operator characters — whatever the real parser accepts must round-trip
     def lit():
